@@ -195,14 +195,14 @@ class LDAWrapper(LinearSolver):
         # If tolerance too large, use the solver for new values
         if np.any(self._did_solve):
             if x0 is not None:
-                if x0.ndim == 1:
-                    x0_loc = x0.reshape(-1, 1).copy()
-                else:
-                    x0_loc = x0[..., self._did_solve].copy()
+                x0_loc = x0.reshape(-1, 1) if x0.ndim == 1 else x0[..., self._did_solve]
+                x0_loc = x0_loc.astype(np.result_type(dtype, x0_loc, *x_data))  # Makes a copy
                 x0_loc[idia, ...] = 0
                 for x in x_data:
                     beta = x0_loc[isel, ...].T @ x.conj() / (x.conj() @ x)
-                    x0_loc[isel, ...] -= beta * x
+                    x0_loc[isel, ...] -= np.outer(x, beta)
+                if not np.iscomplexobj(sol):
+                    x0_loc = np.real(x0_loc)  # It is only an initial guess
             else:
                 x0_loc = None
 
